@@ -97,6 +97,7 @@ func (p *videoParams) facts(kind string) videoFacts {
 				return h265Facts[i]
 			}
 		}
+		return h265Facts[p.h265Idx] // variants whose profile_tier_level was rewritten keep geometry and timing
 	case "vp9":
 		return videoFacts{p.vp9W, p.vp9H, 0}
 	case "av1":
